@@ -55,8 +55,14 @@ func (p *DeletionParameters) ComputeInputHashDeletion() error {
 		return err
 	}
 	data = append(data, buf.Bytes()...)
-	data = append(data, p.PreRoot.Bytes()...)
-	data = append(data, p.PostRoot.Bytes()...)
+	for _, root := range []*big.Int{&p.PreRoot, &p.PostRoot} {
+		rootBytes := root.Bytes()
+		// extend to 32 bytes if necessary, maintaining big-endian ordering
+		if len(rootBytes) < 32 {
+			rootBytes = append(make([]byte, 32-len(rootBytes)), rootBytes...)
+		}
+		data = append(data, rootBytes...)
+	}
 
 	hashBytes := keccak256.Hash(data)
 	p.InputHash.SetBytes(hashBytes)
